@@ -58,13 +58,8 @@ def rule_pr1(ctx: Ctx) -> RuleResult:
                 "that determines them is being processed" % what))
     # every handler of every site emits only from inside the handler: emissions found in functions that are not
     # handlers, subscribe functions or helpers called from them are deferred callbacks
-    handler_fns = set()
-    for s in ctx.sites:
-        handler_fns.add(s.subscribe_fn)
-        for sub in s.subscriptions:
-            for h in sub.handlers.values():
-                if h.how == "fn":
-                    handler_fns.add(h.spec.fn)
+    from .common import reached_functions
+    handler_fns = reached_functions(ctx)
     for rel, m in sorted(prog.by_relpath.items()):
         for node in ast.walk(m.tree):
             if isinstance(node, ast.Call) and isinstance(node.func, ast.Attribute) and node.func.attr == "on_next" \
@@ -111,7 +106,7 @@ def rule_pr2(ctx: Ctx) -> RuleResult:
                     for m in mux_emissions(p):
                         if m.event is not None and m.event.kind == "Next":
                             emits = (kind, cfg, p, m)
-            key = (site.module.relpath, site.short.split(".")[0])
+            key = (site.anchor_rel, site.short.split(".")[0])
             if emits is not None:
                 found.add(key)
                 kind, cfg, p, m = emits
@@ -156,7 +151,7 @@ def rule_pr2(ctx: Ctx) -> RuleResult:
                     for m in emissions(p):
                         if m.method == "on_next" and m.role == "down":
                             emits = (cfg, p, m)
-            key = (site.module.relpath, site.short.split(".")[0])
+            key = (site.anchor_rel, site.short.split(".")[0])
             if emits is not None:
                 cfg, p, m = emits
                 r.ob(key in plain_allowed, lambda: mk_finding(
